@@ -25,7 +25,7 @@ from builders.c02_odf_zip import node, q
 from builders import c02_sheets_build as XB
 from props.c02_odf import (TokGen, diagnose, gen_inls, gen_odp_tree, gen_ods_tree, py_excl_inl, py_visible, real_odf, toks)
 
-GEN = ["C02Sheets", "HtmlSkip", "Ooxml"]
+GEN = ["C02Sheets", "HtmlSkip", "Ooxml", "Tables", "PyOdsSheet", "PyXlsxSheet"]
 RULE = ("ODP decks = 1-3 slides of 0-4 frames at random positions in a random unit (text boxes holding title / body / other "
         "styled paragraphs, outline lists and sections in nesting, block and inline comments; tables; images), shapes with "
         "text outside frames, speaker notes; ODS = sheets of rows / cells with row / column repeats on both sides of the "
